@@ -19,7 +19,7 @@ Lemma commit_step_spec : forall s, WF s -> k_reg s = true -> k_pending s = 0 ->
   | (Err _, s') => WFw s' /\ Ext s s' /\ k_reg s' = true /\ k_intxn s' = false /\ k_has s' = true
   end.
 Proof.
-  destruct_st. intros [[? ? ? ? ? ? ? ? ? ? ? ?] ? ?] ? ?.
+  destruct_st. intros [[? ? ? ? ? ? ? ? ? ? ? ? ?] ? ?] ? ?.
   unfold KF, commit_step. unfold_all. run.
   all: try reflexivity.
   all: split; [first [wf_tac | wfw_tac] | split; [ext_tac | norm; auto]].
